@@ -1,5 +1,7 @@
 #!/bin/bash
-# tools/r3lane.sh <lane> <Cxx> <n> [checks...]   (round-3 helper: run checks against /tmp/r3/<Cxx>/out/m<n>/patch.diff)
+# tools/r3lane.sh <lane> <Cxx> <n> [checks...]   (round-3 helper: run checks against /tmp/r3/<Cxx>/out/m<n>/patch.diff;
+# jobs of one lane are serialised by a lock, so they can be queued at any time)
 L=$1; P=$2; N=$3; shift 3
 CH="${*:-$P}"
-/verif/tools/mutlane.sh $L /tmp/r3/$P/out/m$N/patch.diff quick $CH 2>&1 | sed "s/^/$P-m$N /" >> /tmp/r3/results.txt
+mkdir -p /tmp/mut
+flock /tmp/mut/lane$L.lock /verif/tools/mutlane.sh $L /tmp/r3/$P/out/m$N/patch.diff quick $CH 2>&1 | sed "s/^/$P-m$N /" >> /tmp/r3/results.txt
